@@ -175,6 +175,39 @@ Example C01_int_to_float_example :
   f32_of_int (2 ^ 60 + 2 ^ 36 + 1) = 1568669697%Z /\ f32_of_int (2 ^ 60 + 2 ^ 36) = 1568669696%Z /\ f32_of_int 16777217 = 1266679808%Z /\ f64_of_int (2 ^ 64 - 1) = 4895412794951729152%Z.
 Proof. vm_compute. repeat split; reflexivity. Qed.
 
+(* ---- one float width into the other (`v as f32` for an f64 - every serde_json number into a Float32 column - and `v as f64` for an f32) ----
+   A finite value m * 2^x is stored with the quantum 2^qe of the target format at that magnitude (never below its subnormal spacing):
+   exactly when it sits on that grid, otherwise as the nearest grid point, the even one on a tie. *)
+Theorem C01_float_cast_quantum : forall p qmin m x, snd (round_scaled p qmin m x) = Z.max (Z.log2 m + x - (p - 1)) qmin.
+Proof. exact round_scaled_quantum. Qed.
+
+Theorem C01_float_cast_exact_on_grid : forall p qmin m x, (Z.max (Z.log2 m + x - (p - 1)) qmin <= x)%Z ->
+  round_scaled p qmin m x = ((m * 2 ^ (x - Z.max (Z.log2 m + x - (p - 1)) qmin))%Z, Z.max (Z.log2 m + x - (p - 1)) qmin).
+Proof. exact round_scaled_exact. Qed.
+
+Theorem C01_float_cast_correctly_rounded : forall p qmin m x q qe, (1 < p)%Z -> (0 < m)%Z -> round_scaled p qmin m x = (q, qe) ->
+  (x < Z.max (Z.log2 m + x - (p - 1)) qmin)%Z ->
+  qe = Z.max (Z.log2 m + x - (p - 1)) qmin /\ (0 <= q <= 2 ^ p)%Z /\
+  (2 * Z.abs (q * 2 ^ (qe - x) - m) <= 2 ^ (qe - x))%Z /\ ((2 * Z.abs (q * 2 ^ (qe - x) - m))%Z = (2 ^ (qe - x))%Z -> Z.even q = true).
+Proof. exact round_scaled_rounded. Qed.
+
+(* widening never rounds *)
+Theorem C01_float_widening_exact : forall m x, (0 < m < 2 ^ 24)%Z -> (-149 <= x)%Z ->
+  exists qe, (qe <= x)%Z /\ round_scaled 53 (-1074) m x = ((m * 2 ^ (x - qe))%Z, qe).
+Proof. exact widen_exact. Qed.
+
+Theorem C01_float_cast_in_range : forall x, (0 <= x)%Z -> (0 <= f32_of_f64 x < 2 ^ 32)%Z /\ (0 <= f64_of_f32 x < 2 ^ 64)%Z.
+Proof. intros x H. split; [exact (f32_of_f64_range x H)|exact (f64_of_f32_range x H)]. Qed.
+
+Example C01_float_cast_example :
+  f32_of_f64 4607182418800017408 = 1065353216%Z /\ f32_of_f64 3936146074321813504 = 1%Z /\ f32_of_f64 4039728865751334912 = 8388608%Z
+  /\ f32_of_f64 5183643170835005440 = 2139095040%Z /\ f32_of_f64 5183643170566569984 = 2139095039%Z
+  /\ f64_of_f32 1 = 3936146074321813504%Z /\ f64_of_f32 8388607 = 4039728864677593088%Z.
+Proof. vm_compute. repeat split; reflexivity. Qed.
+
+Print Assumptions C01_float_cast_correctly_rounded.
+Print Assumptions C01_float_cast_in_range.
+
 Print Assumptions C01_int_to_float_correctly_rounded.
 Print Assumptions C01_int_to_float_in_range.
 
